@@ -115,6 +115,25 @@ SIM_SCENARIO(scen_c16, "c16", "C16", 6000000, 30000) {
     }
     d.add(hx::fmt("max_allowed_parallelism=%d", world.limit));
     d.publish();
+    // allotment oracle (hook H7): after every allotment update of the market
+    int allot_updates = 0;
+    sim::set_allotment_observer([&](int soft, int mand, int total, int n, const int* level, const int* minw, const int* maxw, const int* allot) {
+        ++allot_updates;
+        int limit = (soft == 0 && mand > 0) ? 1 : soft;
+        int want = std::min(total, limit), sum = 0;
+        for (int i = 0; i < n; ++i) {
+            sum += allot[i];
+            SIM_CHECK(allot[i] >= 0 && allot[i] <= maxw[i], "oracle:allotment", "an arena was granted %d workers but requested only %d", allot[i], maxw[i]);
+        }
+        SIM_CHECK(sum <= want, "oracle:allotment", "%d workers granted in total, min(total demand %d, limit %d) is %d", sum, total, limit, want);
+        if (sum != want)
+            sim::fail("oracle:allotment-sum", "workers granted to arenas sum to %d, min(total demand %d, limit %d) is %d (soft limit %d, mandatory requests %d, %d arenas)", sum, total, limit, want, soft, mand, n);
+        // priority: nobody at a lower priority level (higher index) holds a worker while a higher level is short (soft limit > 0)
+        if (soft > 0) for (int i = 0; i < n; ++i) for (int j = 0; j < n; ++j)
+            if (level[i] < level[j] && allot[i] < maxw[i] && allot[j] > 0)
+                sim::fail("oracle:allotment-priority", "an arena of priority level %d holds %d worker(s) while an arena of higher priority (level %d) has only %d of %d requested", level[j], allot[j], level[i], allot[i], maxw[i]);
+        (void)minw;
+    });
     {
     std::unique_ptr<tbb::global_control> gc;
     if (world.limit) gc.reset(new tbb::global_control(tbb::global_control::max_allowed_parallelism, (size_t)world.limit));
@@ -161,6 +180,8 @@ SIM_SCENARIO(scen_c16, "c16", "C16", 6000000, 30000) {
         for (auto& kv : o->depth) if (sim::is_scenario_fiber(kv.first)) SIM_CHECK(kv.second == 0, "oracle:observer", "arena %d: fiber %d got %d more entry than exit calls although it has left the arena", o->arena_id, kv.first, kv.second);
     }
     }
+    sim::set_allotment_observer(nullptr);
+    if (allot_updates) sim::probe("allotment-updates-observed");
     for (auto& ai : world.ar) delete ai.a;
     W = nullptr;
 }
